@@ -76,6 +76,20 @@ func (ld *Loader) lookupType(name string) types.Type {
 	name = strings.TrimPrefix(name, "*")
 	i := strings.LastIndex(name, ".")
 	if i < 0 {
+		for _, b := range types.Typ {
+			if b.Name() == name {
+				if ptr {
+					return types.NewPointer(b)
+				}
+				return b
+			}
+		}
+		if name == "byte" {
+			return types.Typ[types.Uint8]
+		}
+		if name == "error" {
+			return types.Universe.Lookup("error").Type()
+		}
 		return nil
 	}
 	pn, tn := name[:i], name[i+1:]
